@@ -52,7 +52,7 @@ Lemma step_refines st o : tail_is_last st ->
   out_abs (snd (q_step st o)) = snd (f_step (q_abs (fst st)) o).
 Proof.
   intros Ht. destruct st as [q last].
-  destruct o as [s| |k| |k| |]; cbn [q_step f_step fst snd].
+  destruct o as [s| |k| |k| | |]; cbn [q_step f_step fst snd].
   - unfold q_push, q_abs. cbn [fst snd]. rewrite map_app. split; reflexivity.
   - destruct q as [|e q]; cbn; split; reflexivity.
   - unfold q_popn. cbn [fst snd]. rewrite many_abs, <- peekn_abs.
@@ -62,6 +62,7 @@ Proof.
   - destruct q as [|e q]; cbn; split; reflexivity.
   - rewrite (droplast_tail _ Ht). cbn [fst snd]. split; [|reflexivity].
     destruct q as [|e q]; [reflexivity|]. cbn [fst]. unfold q_abs. apply map_removelast.
+  - split; reflexivity.
 Qed.
 
 (* peeks never modify the queue *)
@@ -166,7 +167,7 @@ Qed.
 
 Lemma step_inv st o : q_inv st -> q_inv (fst (q_step st o)).
 Proof.
-  intros H. destruct o as [s| |k| |k| |]; cbn [q_step fst]; try exact H.
+  intros H. destruct o as [s| |k| |k| | |]; cbn [q_step fst]; try exact H.
   - apply push_inv; exact H.
   - destruct H as [Hs Hb]. destruct st as [[|e q] last]; cbn; [split; assumption|].
     unfold q_inv, ids_sorted in *. cbn in *. inversion Hs; inversion Hb; subst. split; assumption.
@@ -337,7 +338,7 @@ Proof.
   intros H. pose proof (L_items _ _ H) as Hi. pose proof (L_last _ _ H) as Hl. pose proof (L_le _ _ H) as Hle.
   pose proof (L_tail _ _ H) as Ht. pose proof (L_inv _ _ H) as Hq.
   destruct s as [lg p]. destruct st as [q last]. cbn [fst snd] in *.
-  destruct o as [x| |k| |k| |]; cbn [q_step l_step fst snd]; try exact H.
+  destruct o as [x| |k| |k| | |]; cbn [q_step l_step fst snd]; try exact H.
   - (* push *)
     unfold q_push. rewrite (push_id_init_inv _ Hq). cbn [fst snd].
     constructor; cbn [fst snd].
@@ -421,7 +422,7 @@ Lemma f_step_log lg p o : (p <= length lg)%nat ->
   fst (f_step (skipn p lg) o) = skipn (snd (l_step (lg, p) o)) (fst (l_step (lg, p) o)) /\
   (snd (l_step (lg, p) o) <= length (fst (l_step (lg, p) o)))%nat.
 Proof.
-  intros Hle. destruct o as [x| |k| |k| |]; cbn [f_step l_step fst snd]; try (split; [reflexivity|exact Hle]).
+  intros Hle. destruct o as [x| |k| |k| | |]; cbn [f_step l_step fst snd]; try (split; [reflexivity|exact Hle]).
   - rewrite skipn_app_le' by exact Hle. split; [reflexivity|rewrite app_length; lia].
   - destruct (p <? length lg)%nat eqn:C; cbn [fst snd].
     + apply Nat.ltb_lt in C. destruct (skipn p lg) as [|x r] eqn:E.
@@ -462,7 +463,8 @@ Proof.
         { pose proof (skipn_length p lg) as Hk. rewrite E2 in Hk. cbn in Hk. lia. }
         destruct lg as [|y lg] using rev_ind; [cbn in C; lia|]. rewrite removelast_last, app_length. cbn. lia.
       + apply Nat.ltb_ge in C. assert (p = length lg) by lia. subst p.
-        rewrite skipn_all. lia. }
+        rewrite skipn_all. lia.
+    - injection E as <- <-. destruct (skipn p lg); lia. }
   lia.
 Qed.
 
